@@ -292,6 +292,38 @@ def difference(A, B, max_states=200000):
     return None
 
 
+def excess(A, B, max_states=200000):
+    """Shortest string accepted by A and not by B; None when L(A) is included in L(B)."""
+    sigma, other = alphabet(A, B)
+    s0 = (_norm(A, A.initial()), _norm(B, B.initial()))
+    seen = {s0: None}
+    q = deque([s0])
+    n = 0
+    while q:
+        cur = q.popleft()
+        a, b = cur
+        if _acc(A, a) and not _acc(B, b):
+            out = []
+            x = cur
+            while seen[x] is not None:
+                x, ch = seen[x]
+                out.append(ch)
+            return "".join(reversed(out))
+        for ch in sigma:
+            na = _norm(A, _step(A, a, ch))
+            if not na:
+                continue
+            nb = _norm(B, _step(B, b, ch))
+            nxt = (na, nb)
+            if nxt not in seen:
+                seen[nxt] = (cur, ch)
+                q.append(nxt)
+                n += 1
+                if n > max_states:
+                    raise AnalysisError("REGEX", "product automaton too large")
+    return None
+
+
 def max_count(A, ch, cap=2, max_states=200000):
     """Maximum number (capped) of occurrences of ``ch`` in an accepted string, with a witness."""
     sigma, other = alphabet(A)
